@@ -1029,8 +1029,14 @@ class Interp:
                 return list(r) if e.func.attr in ("items", "keys", "values") \
                     else r
             if isinstance(base, (set, frozenset)) and e.func.attr in (
-                    "add", "union", "intersection", "copy", "discard"):
-                return getattr(base, e.func.attr)(*args)
+                    "add", "union", "intersection", "copy", "discard",
+                    "difference", "issubset", "issuperset", "isdisjoint",
+                    "update", "difference_update", "intersection_update",
+                    "remove", "pop", "clear", "symmetric_difference"):
+                try:
+                    return getattr(base, e.func.attr)(*args)
+                except KeyError:
+                    raise Raised(e, "KeyError")
             if isinstance(base, DQ) and e.func.attr in (
                     "popleft", "appendleft", "extendleft"):
                 try:
